@@ -298,7 +298,7 @@ def relu_backward(grad:np.ndarray, a:np.ndarray) -> np.ndarray:
 
 
 def leaky_relu_forward(a:np.ndarray, neg_slope:float) -> np.ndarray:
-    return np.maximum(neg_slope * a, a)
+    return np.maximum(0, a) + neg_slope * np.minimum(0, a) # x if x > 0 else neg_slope*x, for any slope
 
 def leaky_relu_backward(grad:np.ndarray, a:np.ndarray, neg_slope:float) -> np.ndarray:
     return grad * ((a > 0) + neg_slope * (a <= 0))
